@@ -388,9 +388,15 @@ def maybe_fault(rng, plan, prob=0.1):
     """Separate fault-injecting configuration: an objective failure inside some evaluation of S0
     (contained by Solve, propagated to the driver by DoGlobalIteration)."""
     if rng.random() < prob:
-        plan["faults"] = [{"a": "S0", "at_eval": rng.randint(2, 30), "exc": rng.choice(["ValueError", "KeyboardInterrupt", "SimFault", "MemoryError"]),
+        plan["faults"] = [{"a": "S0", "at_eval": rng.choice([1, 1, 2, rng.randint(2, 30), rng.randint(2, 30)]),
+                           "exc": rng.choice(["ValueError", "KeyboardInterrupt", "SimFault", "MemoryError"]),
                            "when": rng.choice(["before", "after"]), "persistent": False}]
         plan["actors"]["S0"]["params"]["refineSolution"] = False
+        if rng.random() < 0.6:
+            # the caller catches the exception and keeps driving (inspecting / retrying)
+            plan["continue_after_fault"] = True
+            for _ in range(rng.randint(1, 3)):
+                plan["ops"].append({"a": "S0", "op": rng.choice(["iterate", "iterate", "results", "solve"]), "k": rng.randint(1, 8)})
     return plan
 
 
